@@ -280,10 +280,59 @@ def _find_rank_closure(prog, it):
     return best
 
 
-def effective_guards(prog, body, bb):
+def closure_run_guards(prog, ckey):
+    """`cond.then(|| …)`: the closure runs only when cond holds — [(E, polarity, block)] for the closure `ckey`."""
+    out = []
+    try:
+        cons = closure_consumer(prog, ckey)
+        if cons:
+            cpb, cbb_, ct_, cai = cons
+            if callee_name(ct_).endswith("bool::then") or callee_name(ct_).endswith("bool>::then") or callee_name(ct_).split("::<")[0].endswith("::then"):
+                cd_ = strip_refs(cpb.expr_operand(ct_["args"][0]))
+                pol_ = True
+                while cd_.k == "un" and cd_.a[0] == "Not":
+                    cd_ = strip_refs(cd_.a[1])
+                    pol_ = not pol_
+                raw_guard = (cd_, pol_, cbb_)
+                # `(a && b).then(..)`: the condition is a flag — `if a { flag = b } else { flag = false }` — and it is true only where
+                # its one non-false definition stands, i.e. under that definition's own guards
+                a0_ = ct_["args"][0]
+                if not (pol_ and a0_.get("k") in ("move", "copy") and not a0_["place"]["p"]):
+                    out.append(raw_guard)
+                if pol_ and a0_.get("k") in ("move", "copy") and not a0_["place"]["p"]:
+                    defs_ = cpb.defs.get(a0_["place"]["l"], [])
+                    live_ = []
+                    for d_ in defs_:
+                        if d_[2] == "assign" and not d_[3]["place"]["p"] and d_[3]["rv"]["k"] == "use" and d_[3]["rv"]["op"].get("k") == "const" \
+                                and d_[3]["rv"]["op"].get("bool") is False:
+                            continue
+                        live_.append(d_)
+                    if len(live_) == 1 and len(defs_) >= 2:
+                        out.extend(guards_of(cpb, live_[0][0]))
+                        # … and where that definition's own value is true
+                        d_ = live_[0]
+                        if d_[2] == "assign":
+                            lv_ = strip_refs(cpb.expr_rvalue(d_[3]["rv"]))
+                            lp_ = True
+                            while lv_.k == "un" and lv_.a[0] == "Not":
+                                lv_ = strip_refs(lv_.a[1])
+                                lp_ = not lp_
+                            raw_guard = (lv_, lp_, d_[0])
+                        elif d_[2] == "call":
+                            t_ = d_[3]
+                            raw_guard = (E("call", callee_name(t_), tuple(cpb.expr_operand(a_) for a_ in t_["args"]), d_[0], t=t_), True, d_[0])
+                out.append(raw_guard)
+    except Exception:
+        pass
+    return out
+
+
+def effective_guards(prog, body, bb, closure=None):
     """Guards dominating bb, plus (for closures) the guards dominating the closure's creation site,
-    transitively to the root function."""
+    transitively to the root function.  `closure`: the closure that builds the pushed value (its own run condition counts too)."""
     out = list(guards_of(body, bb))
+    if closure:
+        out.extend(closure_run_guards(prog, closure))
     key = body.key
     f = prog.fns.get(key)
     for _ in range(6):
@@ -295,6 +344,7 @@ def effective_guards(prog, body, bb):
                 break
             pb, i, j, s, ups = cc
             out.extend(guards_of(pb, i))
+            out.extend(closure_run_guards(prog, key))
             key = pb.key
             f = prog.fns.get(key)
             continue
@@ -315,6 +365,22 @@ def effective_guards(prog, body, bb):
         key = caller
         f = prog.fns.get(key)
     return out
+
+
+def creator_value(prog, p):
+    """For a candidate built inside a closure from a captured value (`cond.then(|| Rank::last_ranked(term.to_string(), 3))`): the captured value
+    as the creating function sees it — (peeled E, creator body) — or None when the item is not just a capture."""
+    if not getattr(p, "closure", None) or p.item is None:
+        return None
+    from engine.analyses import subst_upvars
+    pe = peel_conv(p.item)
+    r, f = apath(pe)
+    if not (r.k == "arg" and r.a[0] == 1 and f and str(f[0]).isdigit()):
+        return None             # not a projection of the closure's environment
+    cc = closure_creation(prog, p.closure)
+    if not cc:
+        return None
+    return peel_conv(subst_upvars(prog, p.closure, p.item)), cc[0]
 
 
 def guarded(guards, callee_suffix, polarity):
